@@ -14,7 +14,7 @@
    ex_bad_refused, ex_no_hold, ex_timer). *)
 From Common Require Import Prelude.
 From Coq Require Import QArith String.
-From C08 Require Import Py Model Lemmas.
+From C08 Require Import Py Model Lemmas Hist HistLemmas.
 From C08.gen Require Import Driver Sites.
 Open Scope Z_scope.
 
@@ -98,3 +98,68 @@ Theorem fire_switches_off :
   forall mhd now s d, next_deadline s = Some d -> ts_on (tstep mhd now s TFire) = false.
 Proof. exact fire_switches_off_l. Qed.
 Print Assumptions fire_switches_off.
+
+(* ================================================================================================== *)
+(* Histories (Hist.v): one coil, its DelayManager and the clock.  Examples: HistLemmas.v (ex_hist_refused,
+   ex_hist_deferred, ex_hist_hyps). *)
+
+(* default_pulse_ms / default_timed_enable_ms are runtime placeholders: whatever they evaluate to at the moment of a
+   request (with_defaults c a b, any a b), every effect of an accepted request is within the configured limits. *)
+Theorem any_default_within_limits :
+  forall c a b r l, cfg_ok c = true -> handle (with_defaults c a b) r = Ok l -> effs_ok c l = true.
+Proof. exact any_default_within_limits_l. Qed.
+Print Assumptions any_default_within_limits.
+
+(* A pulse / enable that the power-supply unit defers (any wait w > 0) sends nothing now, and what is put into the
+   delay are verified arguments ... *)
+Theorem deferred_call_verified :
+  forall c r w l d, cfg_ok c = true -> hhandle c r w = Ok (l, Some d) -> l = [] /\ 0 < w /\ dcall_ok c d = true.
+Proof. exact hhandle_some. Qed.
+Print Assumptions deferred_call_verified.
+
+(* ... so that the delayed _pulse_now / _enable_now, whenever it runs and whatever the placeholders are by then,
+   sends only commands within the limits (hw_command_within_limits for the delayed hardware calls). *)
+Theorem deferred_call_within_limits :
+  forall c a b d l, cfg_ok c = true -> dcall_ok c d = true -> exec_dcall (with_defaults c a b) d = Ok l ->
+    effs_ok c l = true.
+Proof. exact deferred_call_within_limits_l. Qed.
+Print Assumptions deferred_call_within_limits.
+
+(* A refused request touches neither the coil nor any of its delays (in particular not the off-timer of a running
+   software-timed pulse). *)
+Theorem refused_request_changes_nothing :
+  forall c s t r w e, hhandle (cur c (set_now s t)) r w = Err e ->
+    hstep c s (EReq t (HReq r w)) = (set_now s t, (t, Err e)).
+Proof. exact refused_request_changes_nothing_l. Qed.
+Print Assumptions refused_request_changes_nothing.
+
+Theorem named_expiry_switches_off :
+  forall c s, (h_td s <> None -> h_on (fst (hstep c s EFireTd)) = false) /\
+              (h_lim s <> None -> h_on (fst (hstep c s EFireLim)) = false).
+Proof. exact named_expiry_switches_off_l. Qed.
+Print Assumptions named_expiry_switches_off.
+
+(* END-TO-END.  For every validated configuration, every history of requests (any arguments, accepted or refused,
+   immediate or deferred by any PSU answer, lights on the drivers platform, re-evaluated placeholders) and every
+   interleaving with expiring delays that the clock allows (hvalid: a request never overtakes a due delay, a delay
+   fires when none is earlier, equal deadlines in either order; no bound on the length):
+   (1) every command that reaches the hardware, from a request or from an expiring delay, is within the limits;
+   (2) a coil that is on without an accepted enable outstanding has its 'timed_disable' pending and not overdue;
+   (3) a coil that is on with an accepted enable outstanding is allowed to be held, and if max_hold_duration is
+       configured the watchdog is pending, not overdue, and due at most max_hold_duration after the FIRST enable since
+       the coil was last off;
+   (4) at rest (no delay pending) the coil is off unless a permitted enable without max_hold_duration is outstanding. *)
+Theorem history_safe :
+  forall (c : cfg) (evs : list hev),
+    cfg_ok c = true -> hvalid c (hinit c) evs = true ->
+    let s := fst (hrun c (hinit c) evs) in
+    forallb (out_ok c) (snd (hrun c (hinit c) evs)) = true /\
+    (h_on s = true -> h_hold s = false -> exists a, h_td s = Some a /\ h_now s <= a) /\
+    (h_on s = true -> h_hold s = true ->
+       holding_allowed c = true /\
+       (truthy (cfg_max_hold_duration c) = true ->
+        exists b, h_lim s = Some b /\ h_now s <= b /\ b <= h_since s + mhd_ms c)) /\
+    (at_rest s = true -> h_on s = true ->
+       h_hold s = true /\ holding_allowed c = true /\ truthy (cfg_max_hold_duration c) = false).
+Proof. exact history_safe_l. Qed.
+Print Assumptions history_safe.
